@@ -169,7 +169,7 @@ func (r *bungeeCordMessageResponder) prepareForwardMessage(in io.Reader) (forwar
 		return
 	}
 	messageLen, err := util.ReadInt16(in)
-	if err != nil {
+	if err != nil || messageLen < 0 {
 		return
 	}
 	msg := make([]byte, messageLen)
@@ -179,7 +179,7 @@ func (r *bungeeCordMessageResponder) prepareForwardMessage(in io.Reader) (forwar
 	}
 
 	forwarded := new(bytes.Buffer)
-	forwarded.WriteString(channel)
+	_ = util.WriteUTF(forwarded, channel)
 	_ = util.WriteInt16(forwarded, messageLen)
 	forwarded.Write(msg)
 	return forwarded.Bytes()
@@ -209,6 +209,9 @@ func (r *bungeeCordMessageResponder) processForwardToServer(in io.Reader) {
 		return
 	}
 	forward := r.prepareForwardMessage(in)
+	if forward == nil {
+		return // malformed payload
+	}
 	if strings.EqualFold(target, "ALL") || strings.EqualFold(target, "ONLINE") {
 		var currentUserServer string
 		if s := r.ConnectedServer(); s != nil {
